@@ -43,7 +43,11 @@
                           exclude reserved declarations and the PI target `xml`
     C02_fragment_spelled_ns   the same relation between parse_fragment(t) and parse(<w>t</w>) with namespaces
     C02_positions_irrelevant  byte positions and whole-token spans of the tokens do not influence the
-                          tree, the interning tables or the id map a parse returns, nor whether it fails
+                          tree, the interning tables or the id map a parse returns, nor whether it fails -
+                          for lists in which every empty prefix has offset 0 (`tokensPrefixOk`: the ONE
+                          position xot reads since /repo a5fafb0, `check_qname`; true of every accepted
+                          list, every erased list and every layout the tokenizer reads back);
+                          `_erased`: the erased list decides; closed counterexample without the hypothesis
     C02_lexical_layout / _fragment / _document / _prolog / _declaration / _bom   ON STRINGS, through the
                           reference tokenizer (Model/Lex*.lean, tied to xmlparser by the `lex` suite): for
                           every well-formed spelling and EVERY layout of its tokens — either quote per
@@ -277,7 +281,7 @@ theorem C02_local_xmlns (b : Builder) (p l v sp : StrSpan) (hp : p.text ≠ ['x'
     (hne : p.text ≠ []) : b.step (.attribute p l v sp) = b.attribute p l v := by
   have h1 : (p.text == ['x', 'm', 'l', 'n', 's']) = false := by simpa using hp
   have h2 : p.text.isEmpty = false := by cases hpt : p.text <;> simp_all
-  simp [Builder.step, h1, h2]
+  simp [Builder.step, h1, h2, StrSpan.bareColon]
 
 /-- `<a xmlns:p='u' p:xmlns='v'/>`: `a` stays in no namespace (name id 2 = (`a`, namespace 0)) and
     gets an attribute node `{u}xmlns = v`. -/
@@ -399,7 +403,7 @@ theorem C02_spelled_document {env : Env} (h : EnvBase env) (len : Nat) (sns : Li
 theorem C02_fragment_spelled {env : Env} (h : EnvBase env) (len len' : Nat) (sns : List SNode)
     (hw : SNode.Well.wellList sns) (hadj : noAdjChars sns = true)
     (w : StrSpan) (pstart : Nat) (junk openSp : StrSpan) (cw : StrSpan) (cpstart : Nat) (closeSp : StrSpan)
-    (hcw : cw.text = w.text) :
+    (hcw : cw.text = w.text) (hps : pstart = 0) (hcps : cpstart = 0) :
     ∃ p pw, build .fragment len env (SNode.tokens.tokensList sns) none = .ok p ∧
       build .document len' env (SNode.elem w pstart junk [] openSp sns cw cpstart closeSp).tokens none = .ok pw ∧
       decodeTree.decodeList p.env p.tree.kids = some ((SNode.denote.denoteList sns).map Sum.inr) ∧
@@ -407,7 +411,7 @@ theorem C02_fragment_spelled {env : Env} (h : EnvBase env) (len len' : Nat) (sns
         some [Sum.inr (.elem w.text [] (SNode.denote.denoteList sns))] := by
   obtain ⟨p, hp, _, hdp⟩ := C02_spelled_fragment h len sns hw hadj
   have hwell : SNode.Well.wellList [SNode.elem w pstart junk [] openSp sns cw cpstart closeSp] :=
-    ⟨⟨⟨fun a ha => by simp at ha, List.nodup_nil⟩, hcw, hadj, hw⟩, trivial⟩
+    ⟨⟨⟨fun a ha => by simp at ha, List.nodup_nil⟩, hcw, hadj, hw, hps, hcps⟩, trivial⟩
   obtain ⟨pw, hpw, _, hdw⟩ := C02_spelled_document h len' [SNode.elem w pstart junk [] openSp sns cw cpstart closeSp]
     hwell rfl ⟨rfl, fun d hd => by
       simp only [SNode.denote.denoteList, SNode.denote, List.append_nil, List.mem_singleton] at hd
@@ -423,11 +427,11 @@ theorem C02_envBase_fresh : EnvBase Env.fresh := ⟨rfl, ⟨['i', 'd'], 1, rfl, 
     (`spelledExample`, Lemmas/C02Spellings.lean); it is well formed and denotes
     `a[k="x&"](comment c, text "t LF", b)`. -/
 example : SNode.Well.wellList spelledExample ∧ noAdjChars spelledExample = true := by
-  refine ⟨⟨⟨⟨?_, by decide⟩, rfl, by decide, trivial, ?_, ⟨⟨fun a ha => by simp at ha, by decide⟩, trivial⟩⟩, trivial⟩, by decide⟩
+  refine ⟨⟨⟨⟨?_, by decide⟩, rfl, by decide, ⟨trivial, ?_, ⟨⟨fun a ha => by simp at ha, by decide⟩, rfl⟩, trivial⟩, rfl, rfl⟩, trivial⟩, by decide⟩
   · intro a ha
     simp only [List.mem_singleton] at ha
     subst ha
-    exact ⟨⟨⟨by decide, by decide⟩, ⟨by decide, (fun r h => by cases h), by decide⟩, trivial⟩, by decide⟩
+    exact ⟨⟨⟨by decide, by decide⟩, ⟨by decide, (fun r h => by cases h), by decide⟩, trivial⟩, by decide, rfl⟩
   · intro p hp
     simp only [List.mem_cons, List.mem_singleton, List.not_mem_nil, or_false] at hp
     rcases hp with rfl | rfl
@@ -443,7 +447,9 @@ example : SNode.denote.denoteList spelledExample =
 `NSNode` (Lemmas/ParseNsDefs.lean) is a spelling with prefixes: every start / end tag has a prefix span
 and a local span, the items of a start tag are ordinary attributes and namespace declarations mixed as
 written (which is which is decided by `NSAttr.declares`, the test `_parse` makes), values and URIs are
-piece lists, all positions arbitrary.  `denote scope` threads the in-scope bindings the XML-Namespaces
+piece lists, all positions arbitrary - except that an EMPTY prefix span has offset 0, which is how the
+tokenizer reports an absent prefix (since /repo a5fafb0 xot takes an empty prefix at another offset for
+the spelling `:local` and refuses it: `C03_reject_colon_without_prefix`).  `denote scope` threads the in-scope bindings the XML-Namespaces
 way (own declarations first, nearest wins, default namespace for element names only, `xmlns=""`
 undeclares) and yields `NPNode`s: expanded element name, declarations as written, attributes by
 expanded name with normalised values, content.  `WellNsDoc` is what the builder's rules admit.
@@ -481,7 +487,7 @@ theorem C02_spelled_ns_document {env : Env} (h : EnvBaseNs env) (len : Nat) (sns
 theorem C02_fragment_spelled_ns {env : Env} (h : EnvBaseNs env) (len len' : Nat) (sns : List NSNode)
     (hw : WellNsDoc sns)
     (w : StrSpan) (pstart : Nat) (junk openSp : StrSpan) (cw : StrSpan) (cpstart : Nat) (closeSp : StrSpan)
-    (hcw : cw.text = w.text) :
+    (hcw : cw.text = w.text) (hps : pstart = 0) (hcps : cpstart = 0) :
     ∃ p pw, build .fragment len env (NSNode.tokens.tokensList sns) none = .ok p ∧
       build .document len' env (NSNode.elem ⟨[], pstart⟩ w junk [] openSp sns ⟨[], cpstart⟩ cw closeSp).tokens none =
         .ok pw ∧
@@ -490,7 +496,7 @@ theorem C02_fragment_spelled_ns {env : Env} (h : EnvBaseNs env) (len len' : Nat)
   obtain ⟨p, hp, _, hdp⟩ := C02_spelled_ns_fragment h len sns hw
   obtain ⟨pw, hpw, _, hdw⟩ := C02_spelled_ns_document h len'
     [NSNode.elem ⟨[], pstart⟩ w junk [] openSp sns ⟨[], cpstart⟩ cw closeSp]
-    (wellNsDoc_wrap hw w pstart junk openSp cw cpstart closeSp hcw)
+    (wellNsDoc_wrap hw w pstart junk openSp cw cpstart closeSp hcw hps hcps)
     ⟨rfl, fun d hd => by
       simp only [NSNode.denote.denoteList, NSNode.denote, List.append_nil, List.mem_singleton] at hd
       subst hd; rfl⟩
@@ -547,16 +553,50 @@ example (scope : Scope) (junk openSp closeSp : StrSpan) (attrs : List NSAttr) :
 /-- C02_positions_irrelevant: two token lists that differ only in byte positions and whole-token
     spans (`Token.erase` forgets exactly those) are both rejected, or both accepted with the same
     tree, the same interning tables and the same id map (`BuildResult.okPart`); source lengths may
-    differ too.  (Which error, and the spans inside it, may differ.) -/
+    differ too.  (Which error, and the spans inside it, may differ.)
+    Since /repo a5fafb0 xot reads ONE byte position: `check_qname` takes an empty prefix at a
+    non-zero offset for a colon with nothing in front of it (`<:a/>`), whereas the tokenizer
+    reports an absent prefix at offset 0.  The statement is therefore about lists in which every
+    empty prefix has offset 0 (`tokensPrefixOk`: true of the erased list, of every layout the
+    tokenizer reads back - `C02_lexical_layout` - and of every accepted list,
+    `C02_accepted_prefixOk`); a list that fails the test is refused (`C03_reject_colon_without_prefix`). -/
 theorem C02_positions_irrelevant (mode : Mode) (len len' : Nat) (env : Env) (ts ts' : List Token)
-    (h : ts.map Token.erase = ts'.map Token.erase) :
+    (h : ts.map Token.erase = ts'.map Token.erase)
+    (hq : tokensPrefixOk ts = true) (hq' : tokensPrefixOk ts' = true) :
     (build mode len env ts none).okPart = (build mode len' env ts' none).okPart :=
-  build_erase mode len len' env ts ts' h
+  build_erase mode len len' env ts ts' h hq hq'
+
+/-- One-directional form without a hypothesis on `ts`: the erased list decides. -/
+theorem C02_positions_irrelevant_erased (mode : Mode) (len len' : Nat) (env : Env) (ts : List Token)
+    (hq : tokensPrefixOk ts = true) :
+    (build mode len env ts none).okPart = (build mode len' env (ts.map Token.erase) none).okPart :=
+  build_erase_self mode len len' env ts hq
+
+/-- Every accepted token list passes the test, and so does every erased list. -/
+theorem C02_accepted_prefixOk {mode : Mode} {len : Nat} {env : Env} {ts : List Token} {le : Option Nat}
+    {p : Parsed} (hp : build mode len env ts le = .ok p) : tokensPrefixOk ts = true :=
+  build_ok_prefixOk hp
+
+theorem C02_erased_prefixOk (ts : List Token) : tokensPrefixOk (ts.map Token.erase) = true :=
+  tokensPrefixOk_erase ts
 
 theorem C02_positions_irrelevant_ok (mode : Mode) (len len' : Nat) (env : Env) (ts ts' : List Token)
-    (h : ts.map Token.erase = ts'.map Token.erase) (p : Parsed) (hp : build mode len env ts none = .ok p) :
+    (h : ts.map Token.erase = ts'.map Token.erase) (hq' : tokensPrefixOk ts' = true)
+    (p : Parsed) (hp : build mode len env ts none = .ok p) :
     ∃ p', build mode len' env ts' none = .ok p' ∧ p'.tree = p.tree ∧ p'.env = p.env ∧ p'.ids = p.ids :=
-  build_erase_ok mode len len' env ts ts' h p hp
+  build_erase_ok mode len len' env ts ts' h hq' p hp
+
+/-- The hypothesis cannot be dropped: `<:a/>` and `<a/>` have the same erased tokens; the first is
+    refused, the second accepted. -/
+example :
+    let bad : List Token := [.elementStart ⟨[], 1⟩ ⟨['a'], 2⟩ ⟨['<', ':', 'a'], 0⟩, .elementEnd .empty ⟨['/', '>'], 3⟩]
+    let good : List Token := [.elementStart ⟨[], 0⟩ ⟨['a'], 1⟩ ⟨['<', 'a'], 0⟩, .elementEnd .empty ⟨['/', '>'], 2⟩]
+    bad.map Token.erase = good.map Token.erase ∧
+      (build .document 5 Env.fresh bad none).okPart = none ∧
+      (build .document 4 Env.fresh good none).okPart ≠ none := by
+  refine ⟨rfl, ?_, ?_⟩
+  · rw [build_eq_buildE]; decide +kernel
+  · rw [build_eq_buildE]; decide +kernel
 
 /-! ### The lexical layer: quotes, in-tag white space, XML declaration, BOM
 
@@ -570,11 +610,13 @@ trailing white space.  The statements below are about `parseString` = the refere
 wires them. -/
 
 /-- C02_lexical_layout: the tokenizer reads every layout of a token list back as that token list
-    (up to byte positions), in both modes, without error. -/
+    (up to byte positions; every empty prefix at offset 0, so that `check_qname` lets it pass), in
+    both modes, without error. -/
 theorem C02_lexical_layout (m : Mode) (lts : List LToken) (h : LexOKL m.isFragment lts = true) :
     (lexMode m (renderL lts)).1.map Token.erase = (lts.map LToken.token).map Token.erase ∧
+      tokensPrefixOk (lexMode m (renderL lts)).1 = true ∧
       (lexMode m (renderL lts)).2 = none :=
-  lexMode_layout m lts h
+  ⟨(lexMode_layout m lts h).1.1, (lexMode_layout m lts h).1.2, (lexMode_layout m lts h).2⟩
 
 /-- The canonical spelling (`renderTokens`: one blank, double quotes) is one of the layouts. -/
 theorem C02_lexical_canonical (ts : List Token) : renderL (ts.map LToken.canonical) = renderTokens ts :=
@@ -590,9 +632,9 @@ theorem C02_lexical_fragment {env : Env} (h : EnvBaseNs env) (sns : List NSNode)
       decodeNs p.env p.tree.kids = some (NSNode.denote.denoteList baseScope sns) := by
   obtain ⟨p0, hb, _, hd⟩ := C02_spelled_ns_fragment h 0 sns hw
   have hlex := lexMode_layout .fragment lts hok
-  rw [show (lts.map LToken.token).map Token.erase = (NSNode.tokens.tokensList sns).map Token.erase from by
-    rw [← hl, List.map_map]] at hlex
-  obtain ⟨p, hp, ht, he, _⟩ := parseString_of_lex .fragment env _ _ 0 p0 hlex hb
+  have hlex' : ReadAsList (lexMode .fragment (renderL lts)).1 (NSNode.tokens.tokensList sns) :=
+    ⟨hlex.1.1.trans (by rw [← hl, List.map_map]), hlex.1.2⟩
+  obtain ⟨p, hp, ht, he, _⟩ := parseString_of_lex .fragment env _ _ 0 p0 ⟨hlex', hlex.2⟩ hb
   exact ⟨p, hp, by rw [ht, he, hd]⟩
 
 /-- C02_lexical_prolog: `parse` of the TEXT of a whole document — BOM or not, XML declaration of
